@@ -27,7 +27,7 @@ from vlib.engine_d import Run, Schedule
 from vlib.engine_k import crash_states, recover_from
 from vlib.par import run_shards
 from vlib.sched import make_schedule, schedule_desc
-from vlib.spec import core_corpus, dag_spec, features, loop_spec
+from vlib.spec import core_corpus, dag_spec, features, loop_spec, syn_confluent_spec
 
 LEVEL = "fault_enumeration"
 
@@ -270,7 +270,7 @@ def shard_random(prop: str, tier: str, seed: int, n: int) -> dict[str, Any]:
     """Generated specs x schedules with the subscriber attached; invariant on the final state and on every commit."""
     c = Campaign(prop, tier, seed, LEVEL)
     spec_st = st.one_of(dag_spec(max_stages=5, allow=("multi", "fail", "cof", "poll", "skip")), loop_spec(max_j=2),
-                        st.sampled_from(list(core_corpus().values())))
+                        st.sampled_from(list(core_corpus().values())), syn_confluent_spec())
 
     @hseed(seed)
     @settings(max_examples=n, database=None, deadline=None, derandomize=False, suppress_health_check=list(HealthCheck),
